@@ -116,6 +116,7 @@ type genOpts struct {
 	allowInvalid  bool // txs that invalidate the block
 	allowSponsorK bool // actions may declare/touch balance keys
 	oddPerms      bool
+	yields        bool // sprinkle scheduler yields into the programs
 }
 
 func genRules(rt *rapid.T, allowHuge bool) RulesSpec {
@@ -194,6 +195,10 @@ func genAction(rt *rapid.T, i int, o genOpts, sponsor int, forceFail bool) fixtu
 			break
 		}
 		ol := fmt.Sprintf("%so%d.", lbl, j)
+		if o.yields && rapid.IntRange(0, 4).Draw(rt, ol+"yield") == 0 {
+			a.Ops = append(a.Ops, fixture.Op{Kind: fixture.OpYield, Val: []byte{rapid.SampledFrom([]byte{1, 3, 20, 200}).Draw(rt, ol+"yn")}})
+			continue
+		}
 		var key []byte
 		if len(a.Keys) > 0 && rapid.IntRange(0, 19).Draw(rt, ol+"undeclared") != 0 {
 			key = a.Keys[rapid.IntRange(0, len(a.Keys)-1).Draw(rt, ol+"ki")].Key
